@@ -35,10 +35,32 @@ fn smoke() {
     println!("{}", serde_json::to_string_pretty(&sc).unwrap());
 }
 
+/// debug helper: svsim pp <text> [ignore_include]: preprocess_str over a tiny fixed file system
+fn pp_probe(text: &str, ignore: bool) {
+    let mut sc = Scenario::new("C00", 1, 0, "quick");
+    sc.vfs.push(VNode::file("/w/f", "F;\n"));
+    sc.vfs.push(VNode::file("/w/g", "G;\n"));
+    let mut c = Call::new(Api::PreprocessStr, "top.sv");
+    c.text = Some(text.to_string());
+    c.ignore_include = ignore;
+    sc.threads = vec![vec![Op::Call(c)]];
+    let out = exec::exec(&sc, &exec::ExecOpts::default());
+    let o = &out.calls[0];
+    match &o.digest {
+        Some(d) if d.is_ok() => println!("OK   {:?}", d.text.clone().unwrap_or_default()),
+        Some(d) => println!("ERR  {}", d.err.clone().unwrap_or_default()),
+        None => println!("{}", o.short()),
+    }
+    for e in &out.log {
+        println!("     vfs: {} {} -> {:?}", e.op, e.raw_path, e.answer);
+    }
+}
+
 fn main() {
     let args: Vec<String> = std::env::args().collect();
     match args.get(1).map(|s| s.as_str()) {
         Some("smoke") => smoke(),
+        Some("pp") if args.len() >= 3 => pp_probe(&args[2].replace("\\n", "\n"), args.len() > 3),
         Some("check") if args.len() >= 4 => std::process::exit(runner::cmd_check(&args[2], &args[3])),
         Some("worker") if args.len() >= 9 => std::process::exit(runner::cmd_worker(&args[2..])),
         Some("eval") if args.len() >= 3 => std::process::exit(runner::cmd_eval(&args[2])),
